@@ -1,4 +1,5 @@
-import TextxVerif.Proofs.ArpMemo
+import TextxVerif.Proofs.ArpMemoRev
+import TextxVerif.Tx.Build
 /-!
 # C19 — memoization never changes parse results
 
@@ -8,25 +9,31 @@ interpreter, whose memoization prologue / epilogue (`cacheHit`, `cacheStore`) re
 `g` (with `g.memo = false`) are the parser models textX builds for `memoization=True/False`
 (the check verifies on every run that the two compiled models are otherwise identical).
 
-What is proved, for **every** parser model satisfying `Uniform` (no Comment rule; no `ws` / `skipws`
-rule modifier and no `eolterm` on any node), every input, token table, whitespace configuration,
-start node and fuel:
+What is proved, for **every** parser model satisfying `UniformAt g sk w` (no Comment rule, no `eolterm`;
+`ws` / `skipws` rule modifiers are allowed as long as they restate the whitespace context `(sk, w)` the parse
+runs under — e.g. `Rule[skipws]` in a meta-model with `skipws=True`), every input, token table, start node:
 
-* `C19_posdet`   — results of the plain parser depend only on the position (not on the comment cache,
-                   the failure record or the history), for runs of any two fuels;
-* `C19_partial`  — whenever the plain parser finishes, the memoizing parser finishes within the same
-                   fuel with the same result (same parse tree, or the same rejection) at the same
-                   end position and with the same furthest-failure record `nm` (= error position);
-* `C19_partial_agree` — any two finished runs (plain / memoizing, any fuels) agree;
-* `C19_partial_accept` — at the level of `Parser.parse`: same tree on acceptance, same error position
-                   on rejection.
+* `C19_at`         — the property as stated (`C19Statement`): the plain and the memoizing parser have the same
+                     verdict "with sufficient fuel" — accept with the same tree / reject with the same error
+                     position / malformed model — and (`C19_at_diverges`) one runs forever iff the other does;
+* `C19_partial_at` — whenever the plain parser finishes, the memoizing parser finishes within the same
+                     fuel with the same result at the same end position and with the same failure record `nm`;
+* `C19_converse_at`— whenever the memoizing parser finishes, the plain parser finishes (with some fuel) with
+                     the same result, end position and failure record: memoization cuts no recursion;
+* `C19_partial_warm_at` — `C19_partial_at` from any state whose cache holds finished plain results only (the
+                     invariant is re-established, so caches may be kept between `parse` calls on one input);
+* `C19_partial_agree_at`, `C19_posdet_at`, `C19_partial_accept_at` — as below, for `UniformAt`;
+* `Tx.C19_load_at` — model level: `Tx.loadMemo` (the textX mirror `Tx.load` run with the memoizing parser)
+                     returns what `Tx.load` returns whenever the parser finished.
+* `C19_posdet`, `C19_partial`, `C19_partial_agree`, `C19_partial_accept` — the same for `Uniform g` (no modifiers
+  at all; `Uniform g → UniformAt g sk w` for every context, `Uniform.toAt`); kept from the first round.
 
-What is missing for the full property (hence `_partial`):
-* the converse direction "memoizing parser finishes ⇒ plain parser finishes" (termination of the plain
-  parser is not implied; the real plain parser ends with RecursionError at worst);
-* parser models with a Comment rule;
-* parser models with rule modifiers / eolterm — there the full statement is **false**:
-  `C19_full_false` evaluates the mirror on the parser model textX compiles for
+What is missing for the full property (hence `_partial` / `_at`):
+* parser models with a Comment rule — in general **false** too: `C19_comment_false` (a Comment rule that shares a
+  memoized expression with the grammar; known finding `C19-memo-key-ignores-comment-context`); whether a Comment
+  rule whose expressions are disjoint from the grammar's is harmless is open (tested only);
+* parser models with rule modifiers that *change* the context / with eolterm — there the full statement is
+  **false**: `C19_full_false` / `C19_statement_false` evaluate the mirror on the parser model textX compiles for
   `Model: a=A | b=B; A[noskipws]: x=X 'c'; B: x=X 'd'; X: 'a' v='b';` and the input `a bd`
   (accepted without memoization, rejected with it).  Root cause in the dependency (Arpeggio):
   known finding `C19-memo-key-ignores-ws-context`.
@@ -93,6 +100,158 @@ theorem C19_partial_accept (g : Grammar) (hu : Uniform g) (hm : g.memo = false) 
     · obtain ⟨t1, h1, _, hnm⟩ := C19_partial g hu hm sk w n top _ t0 hp (by simp)
       rw [h1]; simp only []; rw [hnm]; exact hrun
     all_goals cases hrun
+
+/-! ## constant whitespace context: rule modifiers that restate the context in force -/
+
+theorem initState_QmA (g : Grammar) (sk : Bool) (w : List Char) : QmA g sk w (initState sk w) (initState sk w) := by
+  have hs : Sa sk w (initState sk w) := ⟨rfl, rfl, rfl, by intro a b h; simp [initState] at h, rfl, rfl⟩
+  refine ⟨⟨rfl, hs, hs⟩, rfl, ?_⟩
+  intro i p ro np h; simp [initState] at h
+
+/-- **Position-determinism** of the plain parser under the context `(sk, w)`. -/
+theorem C19_posdet_at (g : Grammar) (sk : Bool) (w : List Char) (hu : UniformAt g sk w) (hm : g.memo = false)
+    {n m e : Nat} {s s' t t' : PState} {r r' : Res} (hq : Qa sk w s s')
+    (h1 : parse g n e s = (r, t)) (hr : r ≠ .fuel) (h2 : parse g m e s' = (r', t')) (hr' : r' ≠ .fuel) :
+    r = r' ∧ t.pos = t'.pos :=
+  let h := plain_det_at g hu hm hq h1 hr h2 hr'
+  ⟨h.1, h.2.1⟩
+
+/-- **Memoization is transparent** on parser models whose modifiers restate the context `(sk, w)`:
+plain run finished ⇒ memoizing run finishes within the same fuel, same result, end position, failure record. -/
+theorem C19_partial_at (g : Grammar) (sk : Bool) (w : List Char) (hu : UniformAt g sk w) (hm : g.memo = false)
+    (n top : Nat) (r : Res) (t0 : PState)
+    (h : parse g n top (initState sk w) = (r, t0)) (hr : r ≠ .fuel) :
+    ∃ t1, parse (g.withMemo true) n top (initState sk w) = (r, t1) ∧ t1.pos = t0.pos ∧ t1.nm = t0.nm := by
+  obtain ⟨t1, h1, hq⟩ := memo_sim_at g hu hm n top _ _ r t0 (initState_QmA g sk w) h hr
+  exact ⟨t1, h1, hq.1.1.symm, hq.2.1.symm⟩
+
+/-- **Converse**: memoizing run finished ⇒ the plain run finishes with some fuel, same result, end position,
+failure record.  (Only completed results are stored, so a cache hit never replaces a computation that the
+plain parser could not complete.) -/
+theorem C19_converse_at (g : Grammar) (sk : Bool) (w : List Char) (hu : UniformAt g sk w) (hm : g.memo = false)
+    (n top : Nat) (r : Res) (t1 : PState)
+    (h : parse (g.withMemo true) n top (initState sk w) = (r, t1)) (hr : r ≠ .fuel) :
+    ∃ m t0, parse g m top (initState sk w) = (r, t0) ∧ t0.pos = t1.pos ∧ t0.nm = t1.nm := by
+  obtain ⟨m, t0, h0, hq⟩ := memo_fin_plain g hu hm (initState_QmA g sk w) h hr
+  exact ⟨m, t0, h0, hq.1.1, hq.2.1⟩
+
+/-- **Warm caches**: the same from *any* pair of states at one position in context `(sk, w)` whose memo cache holds
+results of finished plain runs only (`QmA`; `initState` with its empty cache is the special case) — and the cache
+the memoizing run leaves behind is again of this kind, so the statement iterates over any sequence of `parse` calls
+that keep the cache (on the same input). -/
+theorem C19_partial_warm_at (g : Grammar) (sk : Bool) (w : List Char) (hu : UniformAt g sk w) (hm : g.memo = false)
+    (n e : Nat) (sP sM : PState) (hq : QmA g sk w sP sM) (r : Res) (tP : PState)
+    (h : parse g n e sP = (r, tP)) (hr : r ≠ .fuel) :
+    ∃ tM, parse (g.withMemo true) n e sM = (r, tM) ∧ tM.pos = tP.pos ∧ tM.nm = tP.nm ∧ QmA g sk w tP tM := by
+  obtain ⟨tM, h1, hq'⟩ := memo_sim_at g hu hm n e sP sM r tP hq h hr
+  exact ⟨tM, h1, hq'.1.1.symm, hq'.2.1.symm, hq'⟩
+
+/-- the hypothesis `QmA` is satisfiable: the initial state, and every state reached from it -/
+example (g : Grammar) (sk : Bool) (w : List Char) : QmA g sk w (initState sk w) (initState sk w) := initState_QmA g sk w
+
+/-- any finished memoizing run agrees with any finished plain run -/
+theorem C19_partial_agree_at (g : Grammar) (sk : Bool) (w : List Char) (hu : UniformAt g sk w) (hm : g.memo = false)
+    (n m top : Nat) (r0 r1 : Res) (t0 t1 : PState)
+    (h0 : parse g n top (initState sk w) = (r0, t0)) (hr0 : r0 ≠ .fuel)
+    (h1 : parse (g.withMemo true) m top (initState sk w) = (r1, t1)) (hr1 : r1 ≠ .fuel) :
+    r1 = r0 ∧ t1.pos = t0.pos ∧ t1.nm = t0.nm := by
+  obtain ⟨t1', h1', hp⟩ := C19_partial_at g sk w hu hm n top r0 t0 h0 hr0
+  have a := parse_le (g.withMemo true) (Nat.le_max_left n m) top _ r0 t1' h1' hr0
+  have b := parse_le (g.withMemo true) (Nat.le_max_right n m) top _ r1 t1 h1 hr1
+  rw [a] at b
+  cases b
+  exact ⟨rfl, hp⟩
+
+/-- `Parser.parse` seen as a function of the outcome of the top-level `parse` call -/
+def outOf : Res × PState → Outcome
+  | (.ok v, _) => .tree v
+  | (.nomatch, s) => .noMatch (s.nm.getD 0)
+  | (.fuel, _) => .fuel
+  | (.bad, _) => .bad
+
+theorem run_eq (g : Grammar) (top : Nat) (sk : Bool) (w : List Char) (n : Nat) :
+    run g top sk w n = outOf (parse g n top (initState sk w)) := by
+  unfold run outOf
+  cases parse g n top (initState sk w) with | mk r s =>
+  cases r <;> rfl
+
+theorem outOf_fuel {r : Res} {s : PState} : outOf (r, s) ≠ .fuel ↔ r ≠ .fuel := by
+  cases r <;> simp [outOf]
+
+theorem outOf_nm {r : Res} {s s' : PState} (h : s.nm = s'.nm) : outOf (r, s) = outOf (r, s') := by
+  cases r <;> simp [outOf, h]
+
+/-- at the level of `Parser.parse`, fuel by fuel -/
+theorem C19_partial_accept_at (g : Grammar) (sk : Bool) (w : List Char) (hu : UniformAt g sk w) (hm : g.memo = false)
+    (n top : Nat) (o : Outcome) (ho : o ≠ .fuel) (hrun : run g top sk w n = o) :
+    run (g.withMemo true) top sk w n = o := by
+  rw [run_eq] at hrun ⊢
+  cases hp : parse g n top (initState sk w) with | mk r t0 =>
+  rw [hp] at hrun
+  have hr : r ≠ .fuel := outOf_fuel.mp (by rw [hrun]; exact ho)
+  obtain ⟨t1, h1, _, hnm⟩ := C19_partial_at g sk w hu hm n top r t0 hp hr
+  rw [h1, outOf_nm hnm]; exact hrun
+
+/-- fuel monotonicity at the level of `Parser.parse` -/
+theorem run_le (g : Grammar) (top : Nat) (sk : Bool) (w : List Char) {n m : Nat} (hnm : n ≤ m) {o : Outcome}
+    (h : run g top sk w n = o) (ho : o ≠ .fuel) : run g top sk w m = o := by
+  rw [run_eq] at h ⊢
+  cases hp : parse g n top (initState sk w) with | mk r t0 =>
+  rw [hp] at h
+  have hr : r ≠ .fuel := outOf_fuel.mp (by rw [h]; exact ho)
+  rw [parse_le g hnm top _ r t0 hp hr]; exact h
+
+/-- `o` is the verdict of the parser: the (finished) outcome it reaches with sufficient fuel -/
+def Verdict (g : Grammar) (top : Nat) (sk : Bool) (w : List Char) (o : Outcome) : Prop :=
+  o ≠ .fuel ∧ ∃ n, run g top sk w n = o
+
+/-- **The property as stated**: a metamodel with memoization accepts exactly the inputs the same metamodel
+without memoization accepts, with the same parse tree, and rejects with the same error position (and reports
+a malformed parser model alike) -/
+def C19Statement (g : Grammar) (top : Nat) (sk : Bool) (w : List Char) : Prop :=
+  ∀ o, Verdict g top sk w o ↔ Verdict (g.withMemo true) top sk w o
+
+/-- **C19 for parser models whose modifiers restate the context**: same verdicts. -/
+theorem C19_at (g : Grammar) (sk : Bool) (w : List Char) (hu : UniformAt g sk w) (hm : g.memo = false) (top : Nat) :
+    C19Statement g top sk w := by
+  intro o
+  constructor
+  · rintro ⟨ho, n, hrun⟩
+    exact ⟨ho, n, C19_partial_accept_at g sk w hu hm n top o ho hrun⟩
+  · rintro ⟨ho, n, hrun⟩
+    refine ⟨ho, ?_⟩
+    rw [run_eq] at hrun
+    cases hp : parse (g.withMemo true) n top (initState sk w) with | mk r t1 =>
+    rw [hp] at hrun
+    have hr : r ≠ .fuel := outOf_fuel.mp (by rw [hrun]; exact ho)
+    obtain ⟨m, t0, h0, _, hnm⟩ := C19_converse_at g sk w hu hm n top r t1 hp hr
+    exact ⟨m, by rw [run_eq, h0, outOf_nm hnm]; exact hrun⟩
+
+/-- ... and the plain parser runs forever (out of fuel for every fuel) iff the memoizing parser does -/
+theorem C19_at_diverges (g : Grammar) (sk : Bool) (w : List Char) (hu : UniformAt g sk w) (hm : g.memo = false)
+    (top : Nat) :
+    (∀ n, run g top sk w n = .fuel) ↔ (∀ n, run (g.withMemo true) top sk w n = .fuel) := by
+  have hs := C19_at g sk w hu hm top
+  constructor
+  · intro h n
+    apply Classical.byContradiction
+    intro hne
+    obtain ⟨_, m, hm'⟩ := (hs _).mpr ⟨hne, n, rfl⟩
+    rw [h m] at hm'
+    exact hne hm'.symm
+  · intro h n
+    apply Classical.byContradiction
+    intro hne
+    obtain ⟨_, m, hm'⟩ := (hs _).mp ⟨hne, n, rfl⟩
+    rw [h m] at hm'
+    exact hne hm'.symm
+
+/-- the first-round theorem is the special case "no modifiers at all" -/
+example (g : Grammar) (hu : Uniform g) (hm : g.memo = false) (sk : Bool) (w : List Char)
+    (n top : Nat) (r : Res) (t0 : PState)
+    (h : parse g n top (initState sk w) = (r, t0)) (hr : r ≠ .fuel) :
+    ∃ t1, parse (g.withMemo true) n top (initState sk w) = (r, t1) ∧ t1.pos = t0.pos ∧ t1.nm = t0.nm :=
+  C19_partial_at g sk w (hu.toAt sk w) hm n top r t0 h hr
 
 /-! ## the full statement is false: textX's own parser model for the witness grammar -/
 
@@ -171,4 +330,172 @@ example : Uniform uniformEx := by
 example : (run uniformEx 0 true " ".toList 100).accepted = true ∧
     (run (uniformEx.withMemo true) 0 true " ".toList 100).accepted = true := by decide +kernel
 
+/-- the property as stated fails on the witness (verdicts for *every* fuel, via fuel monotonicity) -/
+theorem C19_statement_false : ¬ C19Statement witness 0 true "\t\n\r ".toList := by
+  intro h
+  obtain ⟨hacc, hrej⟩ := C19_full_false
+  have hne : run witness 0 true "\t\n\r ".toList 200 ≠ .fuel := by
+    intro e; rw [e] at hacc; cases hacc
+  obtain ⟨_, n, hn⟩ := (h _).mp ⟨hne, 200, rfl⟩
+  have hne1 : run (witness.withMemo true) 0 true "\t\n\r ".toList 200 ≠ .fuel := by
+    intro e; rw [e] at hrej; cases hrej
+  have a := run_le (witness.withMemo true) 0 true "\t\n\r ".toList (Nat.le_max_left n 200) hn hne
+  have b := run_le (witness.withMemo true) 0 true "\t\n\r ".toList (Nat.le_max_right n 200) rfl hne1
+  rw [a] at b
+  rw [b] at hacc
+  cases hr : run (witness.withMemo true) 0 true "\t\n\r ".toList 200 with
+  | tree v => rw [hr] at hrej; cases hrej
+  | noMatch p => rw [hr] at hacc; cases hacc
+  | fuel => exact hne1 hr
+  | bad => rw [hr] at hacc; cases hacc
+
+/-- the witness has a modifier (`A[noskipws]`) that changes the context: it is outside `UniformAt` -/
+example : ¬ UniformAt witness true "\t\n\r ".toList := by
+  intro h
+  have := (h.ctx 3 _ rfl).2.1
+  simp [witness] at this
+
+/-! ## a Comment rule that shares a memoized expression with the grammar: the statement is false as well -/
+
+/-- parser model compiled by textX (`skipws=False`) for `Model: c=C 'x' | y='y'; C: '#' 'k'; Comment: C;` with the
+token table of `#ky`: the comment model *is* node 4, the sequence of rule `C`, which the first alternative of
+`Model` reaches too.  No rule modifier, no eolterm: one whitespace context throughout. -/
+def commentWitness : Grammar where
+  nodes := #[
+    { kind := .seq, kids := [1, 10], root := true, rule := "Model" },
+    { kind := .choice, kids := [2, 8], root := true, rule := "Model" },
+    { kind := .seq, kids := [3, 7] },
+    { kind := .seq, kids := [4], root := true, rule := "__asgn_plain" },
+    { kind := .seq, kids := [5, 6], root := true, rule := "C" },
+    { kind := .str, tok := 5 },
+    { kind := .str, tok := 6 },
+    { kind := .str, tok := 7 },
+    { kind := .seq, kids := [9], root := true, rule := "__asgn_plain" },
+    { kind := .str, tok := 9 },
+    { kind := .eof, rule := "EOF" }]
+  comments := some 4
+  memo := false
+  input := "#ky".toList.toArray
+  toks := #[#[], #[], #[], #[], #[], #[some 1, none, none, none], #[none, some 1, none, none],
+    #[none, none, none, none], #[], #[none, none, some 1, none], #[]]
+
+/-- **Memoization is not transparent in the presence of a Comment rule** (constant whitespace context, no
+modifiers): `C` is first parsed as a *comment* at offset 0 (inside `_parse_comments`, where `Match.parse` skips no
+comments) and succeeds; then as the *rule* `C` at offset 0 (comments skipped first, so `'#'` is looked for at
+offset 2) and fails — this `NoMatch` replaces the cache entry.  The second alternative `'y'` at offset 0 parses
+comments again (`skipws=False`: the comment-position cache is not consulted): the plain parser skips `#k` and
+accepts, the memoizing parser is answered `NoMatch` from the cache, skips nothing and rejects at offset 2.
+The cache key ignores `in_parse_comments` (Arpeggio; known finding `C19-memo-key-ignores-comment-context`). -/
+theorem C19_comment_false :
+    (run commentWitness 0 false "\t\n\r ".toList 200).accepted = true ∧
+    (run (commentWitness.withMemo true) 0 false "\t\n\r ".toList 200).failPos = some 2 := by
+  decide +kernel
+
+/-- ... although every node is free of modifiers: only the comment model keeps it out of `UniformAt` -/
+example : uniformAtB { commentWitness with comments := none } false "\t\n\r ".toList = true := by decide +kernel
+
+/-! ## non-vacuity of `UniformAt`: modifiers that restate the context, with real backtracking -/
+
+/-- `Model: (X 'c' | X 'd') EOF; X[skipws, ws=' ']: 'a' 'b';` in a meta-model with `skipws=True, ws=' '`:
+the second alternative re-parses `X` (a rule with modifiers) at the same position -/
+def uniformAtEx : Grammar where
+  nodes := #[
+    { kind := .seq, kids := [1, 8], root := true, rule := "Model" },
+    { kind := .choice, kids := [2, 6] },
+    { kind := .seq, kids := [3, 7] },
+    { kind := .seq, kids := [4, 5], root := true, rule := "X", skipws := some true, ws := some [' '] },
+    { kind := .str, tok := 0 },
+    { kind := .str, tok := 1 },
+    { kind := .seq, kids := [3, 9] },
+    { kind := .str, tok := 2 },
+    { kind := .eof, rule := "EOF" },
+    { kind := .str, tok := 3 }]
+  comments := none
+  memo := false
+  input := "a b d".toList.toArray
+  toks := #[#[some 1, none, none, none, none, none], #[none, none, some 1, none, none, none],
+    #[none, none, none, none, none, none], #[none, none, none, none, some 1, none]]
+
+example : UniformAt uniformAtEx true " ".toList := uniformAtB_sound (by decide +kernel)
+
+example : ¬ Uniform uniformAtEx := by
+  intro h
+  have := (h.noCtx 3 _ rfl).1
+  simp [uniformAtEx] at this
+
+/-- a context other than the restated one is outside the class -/
+example : uniformAtB uniformAtEx true " \t".toList = false := by decide +kernel
+
+example : (run uniformAtEx 0 true " ".toList 100).accepted = true ∧
+    (run (uniformAtEx.withMemo true) 0 true " ".toList 100).accepted = true := by decide +kernel
+
+/-- the memoizing run of the example really answers from the cache: with the cache the run needs less fuel -/
+example : (parse uniformAtEx 100 0 (initState true " ".toList)).2.cache.length = 0 ∧
+    (parse (uniformAtEx.withMemo true) 100 0 (initState true " ".toList)).2.cache.length > 0 := by decide +kernel
+
+theorem verdict_of_accepted {g : Grammar} {top : Nat} {sk : Bool} {w : List Char} {n : Nat}
+    (h : (run g top sk w n).accepted = true) : ∃ v, Verdict g top sk w (.tree v) := by
+  cases hr : run g top sk w n with
+  | tree v => exact ⟨v, by simp, n, hr⟩
+  | noMatch p => rw [hr] at h; cases h
+  | fuel => rw [hr] at h; cases h
+  | bad => rw [hr] at h; cases h
+
+theorem verdict_of_failPos {g : Grammar} {top : Nat} {sk : Bool} {w : List Char} {n p : Nat}
+    (h : (run g top sk w n).failPos = some p) : Verdict g top sk w (.noMatch p) := by
+  cases hr : run g top sk w n with
+  | tree v => rw [hr] at h; cases h
+  | noMatch q => rw [hr] at h; cases h; exact ⟨by simp, n, hr⟩
+  | fuel => rw [hr] at h; cases h
+  | bad => rw [hr] at h; cases h
+
+/-- both verdict classes of `C19Statement` are inhabited on the example: an accepted input ... -/
+example : ∃ v, Verdict uniformAtEx 0 true " ".toList (.tree v) :=
+  verdict_of_accepted (n := 100) (by decide +kernel)
+
+/-- ... and a rejected one (the token table of `a b d` with the `'d'` removed: both alternatives fail at offset 4) -/
+def uniformAtRej : Grammar :=
+  { uniformAtEx with toks := #[#[some 1, none, none, none, none, none], #[none, none, some 1, none, none, none],
+      #[none, none, none, none, none, none], #[none, none, none, none, none, none]] }
+
+example : Verdict uniformAtRej 0 true " ".toList (.noMatch 4) ∧
+    Verdict (uniformAtRej.withMemo true) 0 true " ".toList (.noMatch 4) :=
+  ⟨verdict_of_failPos (n := 100) (by decide +kernel), verdict_of_failPos (n := 100) (by decide +kernel)⟩
+
 end Peg
+
+/-! ## model level: the textX mirror run with the memoizing parser -/
+namespace Tx
+
+/-- `metamodel_from_str(grammar, memoization=True, **cfg).model_from_str(text)` on the mirror: `Tx.load` with the
+memoizing parser -/
+def loadMemo (c : Compiled) (cfg : Config) (input : Array Char) (toks : Array (Array (Option Nat)))
+    (groups : Array Nat) (g1 : Array (Array (Option (Nat × Nat)))) (fuel : Nat) : Outcome :=
+  match Peg.parse ((c.grammar input toks).withMemo true) fuel c.top (Peg.initState cfg.skipws cfg.ws) with
+  | (.ok tree, _) => build { c := c, cfg := cfg, input := input, groups := groups, g1 := g1 } fuel tree
+  | (.nomatch, _) => .syntaxError
+  | (.fuel, _) => .fuel
+  | (.bad, _) => .bad "parser model"
+
+/-- **Structurally identical model**: when the compiled parser model is in the class `UniformAt` for the
+meta-model's whitespace configuration and the parser finished, loading with memoization gives exactly the
+outcome of loading without (same model / same class of error). -/
+theorem C19_load_at (c : Compiled) (cfg : Config) (input : Array Char) (toks : Array (Array (Option Nat)))
+    (groups : Array Nat) (g1 : Array (Array (Option (Nat × Nat)))) (fuel : Nat)
+    (hu : Peg.UniformAt (c.grammar input toks) cfg.skipws cfg.ws)
+    (hfin : (Peg.parse (c.grammar input toks) fuel c.top (Peg.initState cfg.skipws cfg.ws)).1 ≠ .fuel) :
+    loadMemo c cfg input toks groups g1 fuel = load c cfg input toks groups g1 fuel := by
+  unfold loadMemo load
+  cases hp : Peg.parse (c.grammar input toks) fuel c.top (Peg.initState cfg.skipws cfg.ws) with | mk r t0 =>
+  rw [hp] at hfin
+  obtain ⟨t1, h1, _⟩ := Peg.C19_partial_at (c.grammar input toks) cfg.skipws cfg.ws hu rfl fuel c.top r t0 hp hfin
+  rw [h1]
+  cases r <;> rfl
+
+/-- membership in the class depends on the compiled parser model and the configuration only, not on the input -/
+theorem uniformAt_input (c : Compiled) (cfg : Config) (input input' : Array Char)
+    (toks toks' : Array (Array (Option Nat)))
+    (hu : Peg.UniformAt (c.grammar input toks) cfg.skipws cfg.ws) :
+    Peg.UniformAt (c.grammar input' toks') cfg.skipws cfg.ws := ⟨hu.noComments, hu.ctx⟩
+
+end Tx
